@@ -598,7 +598,9 @@ impl Gen {
     }
 
     pub fn utxo_set(&mut self, tag: u8) -> HashSet<Utxo> {
-        let k = 1 + self.r.below(2) as usize;
+        // now and then an empty set (a client may supply one) and sets whose UTxOs carry no datum
+        let k = if self.r.chance(1, 8) { 0 } else { 1 + self.r.below(2) as usize };
+        let with_datum = !self.r.chance(1, 6);
         let mut out = HashSet::new();
         for i in 0..k {
             let mut assets = CanonicalAssets::from_naked_amount(self.r.range(1, 9_000_000) as i128);
@@ -612,10 +614,14 @@ impl Gen {
             }
             // with several UTxOs the datum taken by IntoDatum depends on hash order:
             // give every UTxO of a set the same datum so that the observation is defined
-            let datum = Some(E::Struct(tir::StructExpr {
-                constructor: 0,
-                fields: vec![E::Number(tag as i128), E::Bytes(vec![tag])],
-            }));
+            let datum = if with_datum {
+                Some(E::Struct(tir::StructExpr {
+                    constructor: 0,
+                    fields: vec![E::Number(tag as i128), E::Bytes(vec![tag])],
+                }))
+            } else {
+                None
+            };
             out.insert(mk_utxo(tag, i as u32, &ADDR_A, assets, datum));
         }
         out
